@@ -32,6 +32,16 @@ CHECKS = {
             "drain / use every live proxy / drop everything / close. Oracle: owner keeps an object while the peer holds a live proxy, "
             "forgets it exactly when the last proxy and its release notice are gone, tables empty after close.",
             "DESIGN.md C10", ""),
+    "C11": ("fault_enumeration",
+            "deterministic simulation: numbering pass + one crash plan per run (n-th transport call fails / byte-offset cut / close orderings); thorough enumerates every call x side x kind",
+            "Five workloads between two live peers; a fault-free pass numbers every transport call (poll/recv/send, both sides); runs then kill the "
+            "connection at one call (EOF, reset, EPIPE), cut a direction at a byte offset, or close from A / inside B's handler / both crossing. "
+            "Thorough enumerates every (workload, schedule, side, call, kind) and every close point; quick samples. Oracle: closed, hook exactly "
+            "once, tables released, close idempotent and never raising, every request = value the peer sent | EOFError, nobody hangs (scheduler "
+            "deadlock detector; running into the rpyc timeout counts as a hang).",
+            "DESIGN.md C11", "A requester-side write failure need only leave the stream closed (statement promises 'closed' for sides that "
+            "close, are told to close, or fail while serving). close() from a second thread racing the serving thread is outside the "
+            "statement's quantifier (no schedules) and is not generated."),
 }
 
 NOT_APPLICABLE = {
